@@ -19,7 +19,7 @@ func init() { Register(c06{}) }
 func (c06) ID() string    { return "C06" }
 func (c06) Level() string { return "exploration" }
 func (c06) Rule() string {
-	return "case = one Add/Write/Close history: the first run indices sweep every sequence over {Add,Write} of length 0..6 x page 1..3 x codec x shape, the rest are seeded (batch sizes from the grammar {0,1,page-1,page,page+1,2page,2page+1,3page+2,random}, empty Writes in every position, 0..2page records pending at Close) x page size 1..8 (sometimes 100) x codec x shape, executed fault-free on the sim disk and compared with the list-of-batches model (independent framing parse + read-back). Non-trivial = the history has an empty Write, or records pending at Close, or a batch >= page size (page chain), or >= 2 row groups. Distinct = distinct canonical strings shape|page|codec|A^n W ... C combined with the digest of the record values."
+	return "case = one Add/Write/Close history: the first run indices sweep every sequence over {Add,Write} of length 0..6 x page 1..3 (thorough: length 0..9 x page 1..4) x codec x shape, the rest are seeded (batch sizes from the grammar {0,1,page-1,page,page+1,2page,2page+1,3page+2,random}, empty Writes in every position, 0..2page records pending at Close) x page size 1..8 (sometimes 100) x codec x shape, executed fault-free on the sim disk and compared with the list-of-batches model (independent framing parse + read-back). Non-trivial = the history has an empty Write, or records pending at Close, or a batch >= page size (page chain), or >= 2 row groups. Distinct = distinct canonical strings shape|page|codec|A^n W ... C combined with the digest of the record values."
 }
 func (c06) Assumptions() []string {
 	return []string{
@@ -40,7 +40,7 @@ func (c06) Runs(tier string) int {
 
 func c06Opts(tier string) core.HistOpts {
 	o := core.HistOpts{Shapes: allShapes, PageMin: 1, PageMax: 8, BigPagePct: 3, MinBatches: 0, MaxBatches: 5, MaxOps: 40,
-		EmptyWrites: true, PendingClose: true, Profile: core.Benign, LargePct: 1, ManyPct: 1, ManyMax: 80, HugePct: 1, BoundaryPct: 2}
+		EmptyWrites: true, PendingClose: true, Profile: core.Benign, LargePct: 1, ManyPct: 1, ManyMax: 80, HugePct: 1, BoundaryPct: 2, GiantPct: 1}
 	if tier == "thorough" {
 		o.MaxOps = 120
 		o.MaxBatches = 6
@@ -54,16 +54,27 @@ func c06Opts(tier string) core.HistOpts {
 // page size 1..3 x codec x shape, with seeded record values: most history
 // defects need three or fewer operations, so the sampled search is seeded with
 // all of them. Everything after is drawn from the batch grammar.
-const sweepLen = 6
+//
+// Quick: length 0..6, page size 1..3. Thorough: length 0..9, page size 1..4.
+func sweepBounds(tier string) (maxLen, pages int) {
+	if tier == "thorough" {
+		return 9, 4
+	}
+	return 6, 3
+}
 
-func sweepRuns() int { return ((1 << (sweepLen + 1)) - 1) * 3 * 3 * len(allShapes) }
+func sweepRuns(tier string) int {
+	l, pg := sweepBounds(tier)
+	return ((1 << (l + 1)) - 1) * pg * 3 * len(allShapes)
+}
 
-func sweepHistory(idx int, r *core.Rng) *core.WriterSpec {
+func sweepHistory(idx int, r *core.Rng, tier string) *core.WriterSpec {
+	sweepLen, pages := sweepBounds(tier)
 	nh := (1 << (sweepLen + 1)) - 1
 	h := idx % nh
 	idx /= nh
-	w := &core.WriterSpec{Page: 1 + idx%3}
-	idx /= 3
+	w := &core.WriterSpec{Page: 1 + idx%pages}
+	idx /= pages
 	w.Codec = core.Codecs[idx%3]
 	idx /= 3
 	w.Shape = allShapes[idx%len(allShapes)]
@@ -88,8 +99,8 @@ func sweepHistory(idx int, r *core.Rng) *core.WriterSpec {
 func (p c06) Run(runseed uint64, tier string, acc *Acc) []*core.Violation {
 	r := core.NewRng(runseed)
 	var w *core.WriterSpec
-	if acc.Index < sweepRuns() {
-		w = sweepHistory(acc.Index, r)
+	if acc.Index < sweepRuns(tier) {
+		w = sweepHistory(acc.Index, r, tier)
 		acc.Inc("sweep/short-histories")
 	} else {
 		w = core.GenHistory(r, c06Opts(tier))
@@ -126,6 +137,9 @@ func (p c06) Run(runseed uint64, tier string, acc *Acc) []*core.Violation {
 	}
 	if w.Many {
 		acc.Inc("class/many-row-groups")
+	}
+	if w.Giant {
+		acc.Inc("class/giant-page")
 	}
 	if w.Huge {
 		acc.Inc("class/huge-values")
